@@ -35,6 +35,24 @@ def canon_value(v):
     return {"$repr": type(v).__name__}
 
 
+PARAM_KINDS = {"POSITIONAL_ONLY": "posOnly", "POSITIONAL_OR_KEYWORD": "posOrKw", "VAR_POSITIONAL": "varPos",
+               "KEYWORD_ONLY": "kwOnly", "VAR_KEYWORD": "varKw"}
+
+
+def dump_resolver(fn):
+    """A resolver callable as data: its `inspect.signature` (None: no resolver)."""
+    import inspect
+    if not fn:
+        return None
+    try:
+        sig = inspect.signature(fn)
+    except ValueError:
+        return {"uninspectable": True, "params": []}
+    return {"uninspectable": False,
+            "params": [{"name": p.name, "kind": PARAM_KINDS[p.kind.name], "has_default": p.default is not inspect.Parameter.empty}
+                       for p in sig.parameters.values()]}
+
+
 def dump_arg(a):
     return {
         "name": a.name,
@@ -45,27 +63,34 @@ def dump_arg(a):
     }
 
 
-def dump_field(f):
-    return {
+def dump_field(f, resolvers=False):
+    d = {
         "name": f.name,
         "type": ty_of(f.type),
         "args": [dump_arg(a) for a in f.arguments],
         "deprecated": f.deprecation_reason if f.deprecated else None,
         "desc": f.description,
     }
+    if resolvers:
+        d["resolver"] = dump_resolver(f.resolver)
+        for a, da in zip(f.arguments, d["args"]):
+            da["python_name"] = a.python_name
+    return d
 
 
-def dump_type(t):
+def dump_type(t, resolvers=False):
     from py_gql.schema import (EnumType, InputObjectType, InterfaceType, ObjectType, ScalarType, UnionType)
     d = {"name": t.name, "desc": getattr(t, "description", None), "interfaces": [], "fields": [],
          "members": [], "values": [], "input_fields": []}
     if isinstance(t, ObjectType):
         d["kind"] = "object"
         d["interfaces"] = [i.name for i in t.interfaces]
-        d["fields"] = [dump_field(f) for f in t.fields]
+        d["fields"] = [dump_field(f, resolvers) for f in t.fields]
+        if resolvers:
+            d["default_resolver"] = dump_resolver(t.default_resolver)
     elif isinstance(t, InterfaceType):
         d["kind"] = "interface"
-        d["fields"] = [dump_field(f) for f in t.fields]
+        d["fields"] = [dump_field(f, resolvers) for f in t.fields]
     elif isinstance(t, UnionType):
         d["kind"] = "union"
         d["members"] = [m.name for m in t.types]
@@ -84,9 +109,11 @@ def dump_type(t):
     return d
 
 
-def dump_schema(schema, include_builtin=False, sort=False):
+def dump_schema(schema, include_builtin=False, sort=False, resolvers=False):
     """Description of `schema`. Built-in scalars, introspection types and specified directives are
-    left out unless `include_builtin`. Order = registry order unless `sort`."""
+    left out unless `include_builtin`. Order = registry order unless `sort`.
+    `resolvers=True` adds resolver signatures as data (`resolver`, `default_resolver`, `python_name`)
+    and the `builtin` flag of each type (used by the schema validation model, C13)."""
     from py_gql.schema import SPECIFIED_DIRECTIVES, is_introspection_type
     from py_gql.schema.scalars import SPECIFIED_SCALAR_TYPES
     builtin = {s.name for s in SPECIFIED_SCALAR_TYPES}
@@ -94,7 +121,9 @@ def dump_schema(schema, include_builtin=False, sort=False):
     for name, t in schema.types.items():
         if not include_builtin and (name in builtin or is_introspection_type(t)):
             continue
-        types.append(dump_type(t))
+        types.append(dump_type(t, resolvers))
+        if resolvers:
+            types[-1]["builtin"] = bool(is_introspection_type(t) or t in SPECIFIED_SCALAR_TYPES)
     dirs = []
     spec = {d.name for d in SPECIFIED_DIRECTIVES}
     for name, d in schema.directives.items():
@@ -105,13 +134,16 @@ def dump_schema(schema, include_builtin=False, sort=False):
     if sort:
         types.sort(key=lambda t: t["name"])
         dirs.sort(key=lambda t: t["name"])
-    return {
+    out = {
         "types": types,
         "directives": dirs,
         "query": schema.query_type.name if schema.query_type else None,
         "mutation": schema.mutation_type.name if schema.mutation_type else None,
         "subscription": schema.subscription_type.name if schema.subscription_type else None,
     }
+    if resolvers:
+        out["default_resolver"] = dump_resolver(schema.default_resolver)
+    return out
 
 
 def desc_of_gen(desc, build=None):
